@@ -97,8 +97,8 @@ def main(argv=None):
     known = core.load_known()
     for k in sorted(m["known_seen"]):
         mech = known.get(k, {}).get("mechanism", "")
-        print(f"KNOWN-FINDING: property={prop} {k}: {mech} "
-              f"[{m['known_counts'][k]} cases, e.g. {core.short(m['known_seen'][k], 160)}]")
+        print(f"KNOWN-FINDING: property={prop} {k}: {core.short(mech, 150)} "
+              f"[{m['known_counts'][k]} cases]")
     print(f"{prop} {a.tier} seed={a.seed}: {m['evaluations']} executions judged, "
           f"{len(m['distinct'])} distinct non-trivial, "
           f"{sum(m['counters'].values())} monitor events, "
